@@ -5914,6 +5914,28 @@ moveto_axis_node_next_dfs_backward(const struct lyd_node *iter, const struct lyd
 }
 
 /**
+ * @brief Get the next node on the preceding axis, which is in a backward DFS without the ancestors of the context node.
+ *
+ * @param[in] iter Last returned node, the context node if none yet.
+ * @param[in] node Context node.
+ * @return Next node, NULL if there are no more.
+ */
+static const struct lyd_node *
+moveto_axis_node_next_preceding(const struct lyd_node *iter, const struct lyd_node *node)
+{
+    const struct lyd_node *next = iter, *parent;
+
+    do {
+        next = moveto_axis_node_next_dfs_backward(next, NULL);
+
+        /* skip ancestors */
+        for (parent = lyd_parent(node); parent && (parent != next); parent = lyd_parent(parent)) {}
+    } while (next && parent);
+
+    return next;
+}
+
+/**
  * @brief Get the first node on an axis for a context node.
  *
  * @param[in,out] iter NULL, updated to the next node.
@@ -6002,12 +6024,10 @@ moveto_axis_node_next_first(const struct lyd_node **iter, enum lyxp_node_type *i
         break;
 
     case LYXP_AXIS_PRECEDING:
-        if ((node_type == LYXP_NODE_ELEM) && node->prev->next) {
-            /* skip ancestors */
-            next = moveto_axis_node_next_dfs_backward(node, NULL);
-            assert(next);
-            next_type = LYXP_NODE_ELEM;
-        } /* else no sibling */
+        if (node_type == LYXP_NODE_ELEM) {
+            next = moveto_axis_node_next_preceding(node, node);
+            next_type = next ? LYXP_NODE_ELEM : 0;
+        } /* else nothing precedes */
         break;
 
     case LYXP_AXIS_PRECEDING_SIBLING:
@@ -6116,7 +6136,7 @@ moveto_axis_node_next(const struct lyd_node **iter, enum lyxp_node_type *iter_ty
 
     case LYXP_AXIS_PRECEDING:
         assert(*iter_type == LYXP_NODE_ELEM);
-        next = moveto_axis_node_next_dfs_backward(*iter, NULL);
+        next = moveto_axis_node_next_preceding(*iter, node);
         next_type = next ? LYXP_NODE_ELEM : 0;
         break;
 
